@@ -40,7 +40,7 @@ func (s *step) Context(env envs.Environment) map[string]types.XValue {
 	return map[string]types.XValue{
 		"uuid":       types.NewXText(string(s.UUID())),
 		"node_uuid":  types.NewXText(string(s.NodeUUID())),
-		"arrived_on": types.NewXDateTime(s.ArrivedOn()),
+		"arrived_on": types.NewXDateTime(flows.StoredTime(s.ArrivedOn())),
 		"exit_uuid":  types.NewXText(string(s.ExitUUID())),
 	}
 }
